@@ -174,10 +174,21 @@ func VerifC10Width() {
 	db := NewCrashDB()
 	pr := keyvalue.NewPersistRestorer(db)
 	rt.Assume(pr.ChannelCreated(ctx, sm, peerList(), nil) == nil)
+	// a signature persisted on its own (SigAdded builds its key separately)
+	rt.Assume(pr.SigAdded(ctx, sm, channel.Index(i)) == nil)
 	ch, err := pr.RestoreChannel(ctx, w.Params.ID())
 	rt.Reach("c10.width")
 	rt.Assert("c10.width.restorable", err == nil && ch != nil)
 	if err == nil && ch != nil {
 		rt.Assert("c10.width.same", snap.OfSource(sm).Same(ch))
 	}
+	// removal leaves nothing behind (C11)
+	rt.Assume(pr.ChannelRemoved(ctx, w.Params.ID()) == nil)
+	it := db.NewIterator()
+	left := 0
+	for it.Next() {
+		left++
+	}
+	_ = it.Close()
+	rt.Assert("c11.width.no-residue", left == 0)
 }
